@@ -116,8 +116,9 @@ def detour(
       raise TypeError(
           f'Detour destination {dest!r} is not a class or a function.')
 
+  resolved = _global_detour_context.enter_scope(mappings)
   try:
-    yield _global_detour_context.enter_scope(mappings)
+    yield resolved
   finally:
     _global_detour_context.leave_scope()
 
@@ -230,8 +231,13 @@ class _DetourContext:
 
     for src, dest in new_mappings:
       if src not in self._original_new:
-        self._original_new[src] = src.__new__
+        orig_new = src.__new__
+        if _is_detoured_new(orig_new):
+          # Inherited from a base class that is already detoured: the original
+          # is found through the bases by `get_original_new`.
+          orig_new = object.__new__
         setattr(src, '__new__', _maybe_detoured_new)
+        self._original_new[src] = orig_new
       cur_mappings[src] = dest
     self._detour_stack.append(cur_mappings)
     return cur_mappings
